@@ -4,7 +4,7 @@ transform (after the callee's own division of the shift by ITS output spacing), 
 mask enters as a plain element-wise product; plus the wiring of Wavefront.to_fpm_and_back / babinet."""
 import ast
 from pyexpr2lean import Gen, Untranslatable, load, get_def, find_calls
-from gen_c03 import SymExec, Tup, scalar_funcs, transform_args, emit_scalar, emit_fixed, positional, HEADER, typed, fact3, _strip
+from gen_c03 import SymExec, Tup, scalar_funcs, transform_args, emit_scalar, emit_fixed, positional, HEADER, typed, fact3, _strip, no_inplace_on_args
 
 M3 = 'Model.C03'
 PARAMS = 's0 s1 M0 M1 dx efl wavelength fpm_dx shift0 shift1'
@@ -226,6 +226,11 @@ def generate(repo):
         return ok
     fact3(g, 'babinetIsFieldMinusReturnOfComplement', 'prysm/propagation.py:Wavefront.babinet',
           lambda: get_def(pr, 'Wavefront.babinet'), babinet)
+
+    for nm, py in (('fpmNoInPlaceOnArguments', 'to_fpm_and_back'), ('fpmWrapNoInPlaceOnArguments', 'Wavefront.to_fpm_and_back'),
+                   ('babinetNoInPlaceOnArguments', 'Wavefront.babinet'), ('ffsNoInPlaceOnArguments', 'focus_fixed_sampling'),
+                   ('ufsNoInPlaceOnArguments', 'unfocus_fixed_sampling')):
+        g.fact(nm, f'prysm/propagation.py:{py}', (lambda q: (lambda: no_inplace_on_args(get_def(pr, q))))(py))
 
     return g.finish()
 
